@@ -59,7 +59,12 @@ func (cm *ClassModel) String() string {
 func (cm *ClassModel) Construct(params []r.Element) (r.Element, error) {
 	// initialize a new object - an instance of class with no props set
 	instance := NewObject(cm, r.ElementMap{})
-	return cm.constructor(instance, params)
+	obj, err := cm.constructor(instance, params)
+	// (see Function.Exec) a 结束循环 / 继续循环 left over by the constructor body stays here
+	if sig, ok := err.(*zerr.Signal); ok && (sig.SigType == zerr.SigTypeBreak || sig.SigType == zerr.SigTypeContinue) {
+		return nil, NewException(err.Error())
+	}
+	return obj, err
 }
 
 // //// GETTERS //////
